@@ -6,3 +6,12 @@ From RS Require Import Base Network NetSpec Tour SchedObs Output OutStmts OutFac
 Theorem C05_balance_consequence : stmt_C05_balance.
 Proof. exact C05_balance. Qed.
 Print Assumptions C05_balance_consequence.
+
+(** The last pipeline stage on the functional model (Schedule.v, compared line by line with the implementation on
+    every history containing it): after reassign_end_depots_consistent_with_transitions on a reachable schedule, every
+    vehicle's tour ends at the end-depot node of the depot where its successor in the rotation cycle starts, and no
+    start depot has moved — for all schedules, cycles (also one-vehicle cycles) and depots. *)
+From RS Require Import Transition Schedule SchedInv SchedFrameStmts SchedFrameFacts.
+Theorem C05_final_alignment : forall nw, stmt_consistent_aligns nw.
+Proof. exact consistent_aligns. Qed.
+Print Assumptions C05_final_alignment.
